@@ -235,3 +235,584 @@ Example time_example :
   end = true
   /\ time_from_vect [5 # 1; 11 # 2; 7 # 1]%Q = None.
 Proof. vm_compute. split; reflexivity. Qed.
+
+(* ====================================================================== *)
+(* Second part: the builders as functions of the configuration tree,       *)
+(* frame_from_conf, and the rest of the BRAIN loader                       *)
+(* ====================================================================== *)
+(* Model: Model/ConfLoad.v (lemmas: Proofs/ConfLoadProofs.v, Proofs/ConfLoadBrainProofs.v).
+   Each *_from_conf is a function from the configuration tree to the CALLS it makes
+   (constructor, keyword arguments, order); a raise is `Err kind` (kind = the Python
+   exception class).  What Python can ask of an opaque leaf (is None? a float? `k in leaf`?
+   iterable?) are parameters of the theorems (never axioms); Model/ConfLoad.v also gives the
+   concrete instance `py` (None/bool/int/float/str/list) used by the Examples below.
+   Specification functions used in the statements (Proofs/ConfLoadProofs.v):
+     att_spec o             what an optional attenuation entry becomes: absent/null -> None,
+                            a float v -> factory("constant", v), a mapping with `kind` ->
+                            factory( **mapping), anything else -> TypeError
+     material_kwargs_of m la ta   the deep copy of m with the two attenuation entries set
+     grid_defaults_of m     m with ymin / ymax defaulting to 0.0
+     ops_spec pl            the probe motions for a probe_location mapping pl
+     opt_wall_spec o n w    w is None when o is None, else the wall built from the mapping o
+   All theorems are axiom-free. *)
+From Arim Require Import Model.ConfLoad Proofs.ConfLoadProofs Proofs.ConfLoadBrainProofs.
+
+(* ---- material_from_conf ------------------------------------------------ *)
+(* exactly when a material conf is accepted, and the keyword arguments that then reach
+   core.Material: both attenuation entries well formed, no unknown key, longitudinal_vel given *)
+Theorem conf_material_accepts_iff : forall (L : Type) (is_none is_float : L -> bool)
+    (m : items (cfg L)) (kw : items (marg L)),
+  material_from_conf L is_none is_float (Map m) = Ok kw <->
+  (exists la ta : option (att_call L),
+     att_spec L is_none is_float (lookup "longitudinal_att" m) = Ok la /\
+     att_spec L is_none is_float (lookup "transverse_att" m) = Ok ta /\
+     (forall k : string, has k m = true -> In k material_params) /\
+     has "longitudinal_vel" m = true /\
+     kw = material_kwargs_of L m la ta).
+Proof. exact material_from_conf_iff. Qed.
+
+(* every configured value reaches Material unchanged, and each attenuation is built from ITS
+   OWN entry (longitudinal from longitudinal_att, transverse from transverse_att) *)
+Theorem conf_material_values : forall (L : Type) (is_none is_float : L -> bool)
+    (m : items (cfg L)) (kw : items (marg L)),
+  material_from_conf L is_none is_float (Map m) = Ok kw ->
+  (forall k : string, k <> "longitudinal_att" -> k <> "transverse_att" ->
+     lookup k kw = option_map MCfg (lookup k m)) /\
+  (exists la, att_spec L is_none is_float (lookup "longitudinal_att" m) = Ok la /\
+              lookup "longitudinal_att" kw = Some (MAtt la)) /\
+  (exists ta, att_spec L is_none is_float (lookup "transverse_att" m) = Ok ta /\
+              lookup "transverse_att" kw = Some (MAtt ta)).
+Proof. exact material_from_conf_values. Qed.
+
+(* the order of the keys inside the material mapping is irrelevant *)
+Theorem conf_material_key_order : forall (L : Type) (is_none is_float : L -> bool)
+    (m m' : items (cfg L)) (kw : items (marg L)),
+  (forall k : string, lookup k m = lookup k m') ->
+  material_from_conf L is_none is_float (Map m) = Ok kw ->
+  exists kw', material_from_conf L is_none is_float (Map m') = Ok kw' /\
+              forall k : string, lookup k kw' = lookup k kw.
+Proof. exact material_from_conf_key_order. Qed.
+
+(* attributes of the Material object: absent or null optional entries are None, metadata
+   defaults to {} *)
+Theorem conf_material_defaults : forall (L : Type) (is_none : L -> bool) (m : items (cfg L))
+    (la ta : option (att_call L)),
+  let M := material_of_kwargs L is_none (material_kwargs_of L m la ta) in
+  mat_longitudinal_att L M = la /\ mat_transverse_att L M = ta /\
+  (lookup "transverse_vel" m = None -> mat_transverse_vel L M = None) /\
+  (lookup "density" m = None -> mat_density L M = None) /\
+  (lookup "state_of_matter" m = None -> mat_state_of_matter L M = None) /\
+  (lookup "metadata" m = None -> mat_metadata L M = MCfg (Map [])) /\
+  (forall c, lookup "transverse_vel" m = Some (Map c) -> mat_transverse_vel L M = Some (MCfg (Map c))) /\
+  (forall v, lookup "transverse_vel" m = Some (Leaf v) ->
+     mat_transverse_vel L M = if is_none v then None else Some (MCfg (Leaf v))) /\
+  (forall v, lookup "density" m = Some (Leaf v) ->
+     mat_density L M = if is_none v then None else Some (MCfg (Leaf v))) /\
+  (forall v, lookup "longitudinal_vel" m = Some (Leaf v) -> is_none v = false ->
+     mat_longitudinal_vel L M = Some (MCfg (Leaf v))).
+Proof. exact material_defaults. Qed.
+
+(* ---- walls and examination objects ------------------------------------- *)
+(* a wall is built from ITS OWN mapping — all of it, nothing else — plus the fixed name *)
+Theorem conf_wall_own_mapping : forall (L : Type) (c : cfg L) (name : string) (w : wall_call L),
+  wall_from_conf L c name = Ok w <->
+  (exists m, c = Map m /\ has "name" m = false /\
+             sig_ok wall_required wall_params m = true /\ w = mkWall m name).
+Proof. exact wall_from_conf_iff. Qed.
+
+(* BlockInImmersion(block, couplant, frontwall, backwall): block from block_material, couplant
+   from couplant_material, Frontwall from frontwall, Backwall from backwall (never swapped) *)
+Theorem conf_immersion_fields : forall (L : Type) (is_none is_float : L -> bool)
+    (conf : items (cfg L)) (o : exam_obj L),
+  block_in_immersion_from_conf L is_none is_float conf = Ok o ->
+  exists (bc cc : cfg L) (fm km : items (cfg L)) (b c : items (marg L)),
+    lookup "block_material" conf = Some bc /\ material_from_conf L is_none is_float bc = Ok b /\
+    lookup "couplant_material" conf = Some cc /\ material_from_conf L is_none is_float cc = Ok c /\
+    lookup "frontwall" conf = Some (Map fm) /\ lookup "backwall" conf = Some (Map km) /\
+    o = BlockInImmersion b c (mkWall fm "Frontwall") (mkWall km "Backwall").
+Proof. exact immersion_fields. Qed.
+
+(* BlockInContact: absent or null walls / under_material are None, present ones are built from
+   their own entry *)
+Theorem conf_contact_fields : forall (L : Type) (is_none is_float : L -> bool)
+    (conf : items (cfg L)) (o : exam_obj L),
+  block_in_contact_from_conf L is_none is_float conf = Ok o ->
+  exists (bc : cfg L) (b : items (marg L)) (f k : option (wall_call L)) (u : option (items (marg L))),
+    lookup "block_material" conf = Some bc /\ material_from_conf L is_none is_float bc = Ok b /\
+    opt_wall_spec L (get_not_none L is_none "frontwall" conf) "Frontwall" f /\
+    opt_wall_spec L (get_not_none L is_none "backwall" conf) "Backwall" k /\
+    match get_not_none L is_none "under_material" conf with
+    | Some c => exists kw, material_from_conf L is_none is_float c = Ok kw /\ u = Some kw
+    | None => u = None
+    end /\ o = BlockInContact b f k u.
+Proof. exact contact_fields. Qed.
+
+Theorem conf_absent_or_null : forall (L : Type) (is_none : L -> bool) (k : string) (m : items (cfg L)),
+  get_not_none L is_none k m =
+  match lookup k m with
+  | Some (Leaf v) => if is_none v then None else Some (Leaf v)
+  | Some (Map l) => Some (Map l)
+  | None => None
+  end.
+Proof. exact get_not_none_spec. Qed.
+
+(* the KIND of object built follows the dispatch on the set of present keys, and
+   NotImplementedError is raised exactly by the dispatch (never from inside a builder) *)
+Theorem conf_exam_kind : forall (L : Type) (is_none is_float : L -> bool) (conf : items (cfg L)),
+  match examination_object_from_conf L is_none is_float conf with
+  | Ok (BlockInImmersion _ _ _ _) => exam_dispatch conf = ExImmersion
+  | Ok (BlockInContact _ _ _ _) => exam_dispatch conf = ExContact
+  | Err ENotImplemented => exam_dispatch conf = ExNotImplemented
+  | Err _ => exam_dispatch conf <> ExNotImplemented
+  end.
+Proof. exact exam_kind. Qed.
+
+Theorem conf_exam_dispatch_keys : forall (V : Type) (conf : items V),
+  exam_dispatch conf =
+  if has "block_material" conf
+  then if has "frontwall" conf && has "backwall" conf && has "couplant_material" conf
+       then ExImmersion else ExContact
+  else ExNotImplemented.
+Proof. exact exam_dispatch_spec. Qed.
+
+(* ---- probe_from_conf ---------------------------------------------------- *)
+(* where the probe comes from: both keys -> rejected (by AttributeError: see Model/ConfLoad.v),
+   probe_key -> the library entry under that key, else make_matrix_probe( **conf["probe"]) with
+   the whole mapping, whose keys must bind to the signature *)
+Theorem conf_probe_source : forall (L : Type) (conf : items (cfg L)),
+  probe_source L conf =
+  match probe_dispatch conf with
+  | PsError => Err EAttr
+  | PsLibrary => match lookup "probe_key" conf with
+                 | Some k => Ok (SrcLibrary k) | None => Err EKey end
+  | PsMatrix => match lookup "probe" conf with
+                | Some (Leaf _) => Err EType
+                | Some (Map kw) => if sig_ok matrix_required matrix_params kw
+                                   then Ok (SrcMatrix kw) else Err EType
+                | None => Err EKey
+                end
+  end.
+Proof. exact probe_source_spec. Qed.
+
+(* the motions applied for a probe_location mapping: the PRESENCE of a key decides (a value 0
+   or null still counts), the value passed is the one under that key, the order is fixed:
+   set_reference_element + translate_to_point_O, rotate, translate *)
+Theorem conf_probe_location_calls : forall (L : Type) (leaf_has : L -> string -> option bool)
+    (conf : items (cfg L)) (pl : items (cfg L)),
+  lookup "probe_location" conf = Some (Map pl) ->
+  probe_location_ops L leaf_has conf = Ok (ops_spec L pl).
+Proof. exact probe_location_ops_map. Qed.
+
+(* a probe_location that is not a mapping *)
+Theorem conf_probe_location_not_a_mapping : forall (L : Type) (leaf_has : L -> string -> option bool)
+    (conf : items (cfg L)) (v : L),
+  lookup "probe_location" conf = Some (Leaf v) ->
+  probe_location_ops L leaf_has conf =
+  match leaf_has v "ref_element", leaf_has v "angle_deg", leaf_has v "standoff" with
+  | Some false, Some false, Some false => Ok []
+  | _, _, _ => Err EType
+  end.
+Proof. exact probe_location_ops_leaf. Qed.
+
+(* the whole function; with apply_probe_location=False conf["probe_location"] is not read *)
+Theorem conf_probe_from_conf : forall (L : Type) (leaf_has : L -> string -> option bool)
+    (conf : items (cfg L)) (apply : bool),
+  probe_from_conf L leaf_has conf apply =
+  match probe_source L conf with
+  | Ok src => if apply
+              then match probe_location_ops L leaf_has conf with
+                   | Ok ops => Ok (mkPlan src ops) | Err e => Err e end
+              else Ok (mkPlan src [])
+  | Err e => Err e
+  end.
+Proof. exact probe_from_conf_spec. Qed.
+
+(* ---- grid_from_conf ------------------------------------------------------ *)
+(* exactly when a grid conf is accepted (no unknown key; xmin xmax zmin zmax pixel_size given;
+   ymin, ymax optional), and the keyword arguments that reach Grid *)
+Theorem conf_grid_accepts_iff : forall (L : Type) (zero : L) (conf kw : items (cfg L)),
+  grid_from_conf L zero conf = Ok kw <->
+  (exists m, lookup "grid" conf = Some (Map m) /\
+             (forall k : string, has k m = true -> In k grid_params) /\
+             (forall k : string, In k grid_given -> has k m = true) /\
+             kw = grid_defaults_of L zero m).
+Proof. exact grid_from_conf_iff. Qed.
+
+(* every configured number reaches Grid unchanged; ymin and ymax default to 0.0 INDEPENDENTLY *)
+Theorem conf_grid_values : forall (L : Type) (zero : L) (m : items (cfg L)) (k : string),
+  lookup k (grid_defaults_of L zero m) =
+  if String.eqb k "ymax" then Some (match lookup "ymax" m with Some v => v | None => Leaf zero end)
+  else if String.eqb k "ymin" then Some (match lookup "ymin" m with Some v => v | None => Leaf zero end)
+  else lookup k m.
+Proof. exact grid_defaults_lookup. Qed.
+
+(* the new model refines the earlier view Model/Config.grid_kwargs (used by the correspondence) *)
+Theorem conf_grid_refines_grid_kwargs : forall (L : Type) (zero : L) (conf kw : items (cfg L)),
+  grid_from_conf L zero conf = Ok kw -> grid_kwargs zero conf = Some kw.
+Proof. exact grid_from_conf_refines. Qed.
+
+(* Grid.__init__: each axis gets its own limits and its own spacing *)
+Theorem conf_grid_axes : forall (L : Type) (leaf_seq : L -> option (list L)) (kw : items (cfg L))
+    (ps xmin xmax ymin ymax zmin zmax : cfg L),
+  lookup "pixel_size" kw = Some ps ->
+  lookup "xmin" kw = Some xmin -> lookup "xmax" kw = Some xmax ->
+  lookup "ymin" kw = Some ymin -> lookup "ymax" kw = Some ymax ->
+  lookup "zmin" kw = Some zmin -> lookup "zmax" kw = Some zmax ->
+  grid_axes L leaf_seq kw =
+  match unpack_pixel_size L leaf_seq ps with
+  | Ok (dx, dy, dz) => Ok ((xmin, xmax, dx), (ymin, ymax, dy), (zmin, zmax, dz))
+  | Err e => Err e
+  end.
+Proof. exact grid_axes_spec. Qed.
+
+(* pixel_size: three values go to x, y, z in this order; a non-iterable value goes to all
+   three; an iterable of another length is rejected (ValueError) *)
+Theorem conf_pixel_size_unpacking : forall (L : Type) (leaf_seq : L -> option (list L)) (v : L),
+  (forall a b d, leaf_seq v = Some [a; b; d] ->
+     unpack_pixel_size L leaf_seq (Leaf v) = Ok (PxLeaf a, PxLeaf b, PxLeaf d)) /\
+  (leaf_seq v = None -> unpack_pixel_size L leaf_seq (Leaf v) = Ok (PxLeaf v, PxLeaf v, PxLeaf v)) /\
+  (forall l, leaf_seq v = Some l -> List.length l <> 3 ->
+     unpack_pixel_size L leaf_seq (Leaf v) = Err EValue).
+Proof.
+  intros L leaf_seq v.
+  exact (conj (unpack_three L leaf_seq v) (conj (unpack_scalar L leaf_seq v) (unpack_bad_length L leaf_seq v))).
+Qed.
+
+(* ---- frame_from_conf ----------------------------------------------------- *)
+(* which file is loaded: frame.datafile wins over frame.dataset_name / dataset_item *)
+Theorem conf_frame_source : forall (L : Type) (known_dataset : cfg L -> bool) (conf : items (cfg L)),
+  frame_source L known_dataset conf =
+  match lookup "frame" conf with
+  | Some (Leaf _) => Err EType
+  | Some (Map f) =>
+      match lookup "datafile" f with
+      | Some v => Ok (FromFile v, f)
+      | None =>
+          match lookup "dataset_name" f with
+          | Some n => if known_dataset n
+                      then match lookup "dataset_item" f with
+                           | Some i => Ok (FromDataset n i, f) | None => Err EKey end
+                      else Err EValue
+          | None => Err EKey
+          end
+      end
+  | None => Err EKey
+  end.
+Proof. exact frame_source_spec. Qed.
+
+(* the two switches: the probe / examination object of the frame is the one built from the
+   conf exactly when the switch is on, the file's one otherwise; the delay is frame.instrument_delay
+   (absent or null: none) *)
+Theorem conf_frame_switches : forall (L : Type) (is_none is_float : L -> bool)
+    (leaf_has : L -> string -> option bool) (known_dataset : cfg L -> bool)
+    (load_expdata : frame_src L -> res unit) (conf : items (cfg L)) (up ue : bool) (fp : frame_plan L),
+  frame_from_conf L is_none is_float leaf_has known_dataset load_expdata conf up ue = Ok fp ->
+  exists f : items (cfg L),
+    frame_source L known_dataset conf = Ok (fp_src fp, f) /\
+    load_expdata (fp_src fp) = Ok tt /\
+    fp_delay fp = get_not_none L is_none "instrument_delay" f /\
+    (if up then exists p, probe_from_conf L leaf_has conf true = Ok p /\ fp_probe fp = Some p
+     else fp_probe fp = None) /\
+    (if ue then exists e, examination_object_from_conf L is_none is_float conf = Ok e /\ fp_exam fp = Some e
+     else fp_exam fp = None).
+Proof. exact frame_from_conf_Ok. Qed.
+
+(* with both switches off nothing but conf["frame"] is read *)
+Theorem conf_frame_switches_off : forall (L : Type) (is_none is_float : L -> bool)
+    (leaf_has : L -> string -> option bool) (known_dataset : cfg L -> bool)
+    (load_expdata : frame_src L -> res unit) (conf conf' : items (cfg L)),
+  lookup "frame" conf = lookup "frame" conf' ->
+  frame_from_conf L is_none is_float leaf_has known_dataset load_expdata conf false false =
+  frame_from_conf L is_none is_float leaf_has known_dataset load_expdata conf' false false.
+Proof. exact frame_from_conf_switches_off. Qed.
+
+(* ---- the order of the keys of the root mapping is irrelevant -------------- *)
+Theorem conf_builders_depend_on_lookups : forall (L : Type) (is_none is_float : L -> bool)
+    (leaf_has : L -> string -> option bool) (zero : L) (known_dataset : cfg L -> bool)
+    (load_expdata : frame_src L -> res unit) (conf conf' : items (cfg L)),
+  (forall k : string, lookup k conf = lookup k conf') ->
+  examination_object_from_conf L is_none is_float conf = examination_object_from_conf L is_none is_float conf' /\
+  (forall apply, probe_from_conf L leaf_has conf apply = probe_from_conf L leaf_has conf' apply) /\
+  grid_from_conf L zero conf = grid_from_conf L zero conf' /\
+  (forall up ue, frame_from_conf L is_none is_float leaf_has known_dataset load_expdata conf up ue =
+                 frame_from_conf L is_none is_float leaf_has known_dataset load_expdata conf' up ue).
+Proof. exact root_lookup_ext. Qed.
+
+Theorem conf_builders_root_key_order : forall (L : Type) (is_none is_float : L -> bool)
+    (leaf_has : L -> string -> option bool) (zero : L) (known_dataset : cfg L -> bool)
+    (load_expdata : frame_src L -> res unit) (conf conf' : items (cfg L)),
+  NoDup (keys conf) -> Permutation conf conf' ->
+  examination_object_from_conf L is_none is_float conf = examination_object_from_conf L is_none is_float conf' /\
+  (forall apply, probe_from_conf L leaf_has conf apply = probe_from_conf L leaf_has conf' apply) /\
+  grid_from_conf L zero conf = grid_from_conf L zero conf' /\
+  (forall up ue, frame_from_conf L is_none is_float leaf_has known_dataset load_expdata conf up ue =
+                 frame_from_conf L is_none is_float leaf_has known_dataset load_expdata conf' up ue).
+Proof. exact root_key_order. Qed.
+
+(* ---- time axis, including Time.__init__ ----------------------------------- *)
+(* `time_from_vect_linear` above stops before the constructor call at the end of Time.from_vect;
+   Time.__init__ raises ValueError for step < 0, so that theorem describes the code only for
+   step >= 0.  time_of_vect includes the check: *)
+Theorem time_of_vect_linear : forall t0 step n, 2 <= n -> (0 <= step)%Q ->
+  exists t0' avg, time_of_vect (linspaceQ t0 step 0 n) = Some (t0', avg, n) /\
+                  (t0' == t0)%Q /\ (avg == step)%Q.
+Proof. exact time_of_vect_linspace. Qed.
+
+Theorem time_of_vect_decreasing_rejected : forall t0 step n, 2 <= n -> (step < 0)%Q ->
+  time_of_vect (linspaceQ t0 step 0 n) = None.
+Proof. exact time_of_vect_decreasing. Qed.
+
+(* whatever vector is accepted (also within the 1 % tolerance): start = first stored sample
+   exactly, num = number of stored samples, step >= 0 *)
+Theorem time_of_vect_start_and_length : forall t t0 dt n, time_of_vect t = Some (t0, dt, n) ->
+  n = List.length t /\ (0 <= dt)%Q /\ 2 <= n /\ exists rest, t = t0 :: rest.
+Proof. exact time_of_vect_sound. Qed.
+
+(* frame.instrument_delay: every sample time is shifted by the delay; step and number of
+   samples unchanged; never rejected *)
+Theorem frame_instrument_delay_shift : forall t0 step n delay, (0 <= step)%Q ->
+  shift_time (t0, step, n) delay = Some ((t0 - delay)%Q, step, n) /\
+  Forall2 Qeq (time_samples ((t0 - delay)%Q, step, n))
+              (map (fun t => (t - delay)%Q) (time_samples (t0, step, n))) /\
+  List.length (time_samples ((t0 - delay)%Q, step, n)) = n.
+Proof. exact shift_time_spec. Qed.
+
+(* ---- BRAIN loader: probe --------------------------------------------------- *)
+(* element i sits at (el_xc[i], el_yc[i], el_zc[i]) — unchanged, same order —, its dimensions come
+   from the corners of the SAME element on the same axis, frequency unchanged *)
+Theorem brain_element_positions : forall xc yc zc x1 y1 z1 x2 y2 z2 freq p,
+  load_probe xc yc zc x1 y1 z1 x2 y2 z2 freq = Some p ->
+  let n := List.length xc in
+  2 <= n /\ bp_frequency p = freq /\ bp_locations p = zip3 xc yc zc /\
+  List.length (bp_locations p) = n /\ List.length (bp_dimensions p) = n /\
+  forall i, i < n ->
+    nth i (bp_locations p) (0, 0, 0)%Q = (nth i xc 0%Q, nth i yc 0%Q, nth i zc 0%Q) /\
+    nth i (bp_dimensions p) (0, 0, 0)%Q =
+      (el_dim (nth i xc 0%Q) (nth i x1 0%Q) (nth i x2 0%Q),
+       el_dim (nth i yc 0%Q) (nth i y1 0%Q) (nth i y2 0%Q),
+       el_dim (nth i zc 0%Q) (nth i z1 0%Q) (nth i z2 0%Q)).
+Proof. exact load_probe_spec. Qed.
+
+Theorem brain_probe_accepts : forall xc yc zc x1 y1 z1 x2 y2 z2 freq,
+  2 <= List.length xc ->
+  Forall (fun l => List.length l = List.length xc) [yc; zc; x1; y1; z1; x2; y2; z2] ->
+  exists p, load_probe xc yc zc x1 y1 z1 x2 y2 z2 freq = Some p.
+Proof. exact load_probe_accepts. Qed.
+
+(* the stored corners of an element of width w centred on c give back w *)
+Theorem brain_dimension_centred : forall c w, (0 <= w)%Q ->
+  (el_dim c (c - w * (1 # 2)) (c + w * (1 # 2)) == w)%Q.
+Proof. exact el_dim_centred. Qed.
+
+(* in general: twice the largest distance from the centre to a stored corner; the order of the
+   two corners is irrelevant *)
+Theorem brain_dimension_is_twice_max : forall c a b,
+  ((2 * (a - c) <= el_dim c a b /\ 2 * (c - a) <= el_dim c a b /\
+    2 * (b - c) <= el_dim c a b /\ 2 * (c - b) <= el_dim c a b)%Q /\
+   ((el_dim c a b == 2 * (a - c)) \/ (el_dim c a b == 2 * (c - a)) \/
+    (el_dim c a b == 2 * (b - c)) \/ (el_dim c a b == 2 * (c - b)))%Q) /\
+  (el_dim c a b == el_dim c b a)%Q.
+Proof. intros c a b. exact (conj (el_dim_bounds c a b) (el_dim_swap c a b)). Qed.
+
+(* ---- BRAIN loader: the whole frame ------------------------------------------ *)
+(* whatever is accepted is a well-formed frame holding the stored data *)
+Theorem brain_frame_sound : forall (V : Type) (A : arr2 V) (time : list Q) (tx rx : list Z)
+    (fr : brain_frame V),
+  load_frame V A time tx rx = Some fr ->
+  bf_timetraces fr = load_timetraces V A /\
+  bf_tx fr = load_indices tx /\ bf_rx fr = load_indices rx /\
+  time_of_vect time = Some (bf_time fr) /\
+  a_cols (bf_timetraces fr) = List.length time /\
+  List.length (bf_tx fr) = a_rows (bf_timetraces fr) /\
+  List.length (bf_rx fr) = a_rows (bf_timetraces fr) /\
+  NoDup (combine (bf_tx fr) (bf_rx fr)).
+Proof. exact load_frame_sound. Qed.
+
+(* end to end, file read by scipy (shape (S, N), Fortran order): N timetraces of S samples,
+   any capture order without repeated pair, stored 1-based indices, linear time vector:
+   accepted, one row per timetrace, samples unchanged, indices - 1, Time(t0, step, S) *)
+Theorem brain_frame_scipy_end_to_end : forall (V : Type) (d : V) N S mem t0 step tx rx,
+  2 <= N -> 2 <= S -> (0 <= step)%Q -> List.length tx = N -> List.length rx = N ->
+  Forall (fun s => (1 <= s <= 4294967296)%Z) tx -> Forall (fun s => (1 <= s <= 4294967296)%Z) rx ->
+  NoDup (combine tx rx) ->
+  exists fr t0' dt,
+    load_frame V (view_scipy V N S mem) (linspaceQ t0 step 0 S) tx rx = Some fr /\
+    a_rows (bf_timetraces fr) = N /\ a_cols (bf_timetraces fr) = S /\
+    (forall i j, aget V d (bf_timetraces fr) i j = nth (i * S + j) mem d) /\
+    bf_tx fr = map (fun s => (s - 1)%Z) tx /\ bf_rx fr = map (fun s => (s - 1)%Z) rx /\
+    bf_time fr = (t0', dt, S) /\ (t0' == t0)%Q /\ (dt == step)%Q.
+Proof. exact load_frame_scipy. Qed.
+
+(* ... and read by h5py (shape (N, S), C order) *)
+Theorem brain_frame_hdf5_end_to_end : forall (V : Type) (d : V) N S mem t0 step tx rx,
+  2 <= N -> 2 <= S -> (0 <= step)%Q -> List.length tx = N -> List.length rx = N ->
+  Forall (fun s => (1 <= s <= 4294967296)%Z) tx -> Forall (fun s => (1 <= s <= 4294967296)%Z) rx ->
+  NoDup (combine tx rx) ->
+  exists fr t0' dt,
+    load_frame V (view_hdf5 V N S mem) (linspaceQ t0 step 0 S) tx rx = Some fr /\
+    a_rows (bf_timetraces fr) = N /\ a_cols (bf_timetraces fr) = S /\
+    (forall i j, aget V d (bf_timetraces fr) i j = nth (i * S + j) mem d) /\
+    bf_tx fr = map (fun s => (s - 1)%Z) tx /\ bf_rx fr = map (fun s => (s - 1)%Z) rx /\
+    bf_time fr = (t0', dt, S) /\ (t0' == t0)%Q /\ (dt == step)%Q.
+Proof. exact load_frame_hdf5. Qed.
+
+(* a capture listing a (tx, rx) pair twice is rejected *)
+Theorem brain_frame_duplicate_rejected : forall (V : Type) (A : arr2 V) (time : list Q) (tx rx : list Z),
+  ~ NoDup (combine (load_indices tx) (load_indices rx)) -> load_frame V A time tx rx = None.
+Proof. exact load_frame_duplicate. Qed.
+
+(* ---- non-vacuity (second part) ---------------------------------------------- *)
+(* leaves: pyF n = the float n/8, pyI = int, pyS = str, pyN = null (Model/ConfLoad.v `py`).
+   Every value below was replayed on the real library (see .work/prover_C20_TIE.md). *)
+Local Open Scope Z_scope.
+
+(* {longitudinal_vel: 6300.0, transverse_att: 3.0, longitudinal_att: null, metadata: null}:
+   the transverse attenuation is the constant 3.0, the longitudinal one None (NOT swapped) *)
+Example conf_material_example :
+  py_material_from_conf (Map [("longitudinal_vel", pyF 50400); ("transverse_att", pyF 24);
+                              ("longitudinal_att", pyN); ("metadata", pyN)])
+  = Ok [("longitudinal_vel", MCfg (pyF 50400)); ("transverse_att", MAtt (Some (AttConstant (PyFloat 24))));
+        ("longitudinal_att", MAtt None); ("metadata", MCfg pyN)]
+  /\ py_material_from_conf (Map [("longitudinal_vel", pyF 8); ("zzz", pyI 1)]) = Err EType
+  /\ py_material_from_conf (Map [("transverse_vel", pyF 8)]) = Err EType
+  /\ py_material_from_conf (Map [("longitudinal_vel", pyF 8); ("transverse_att", pyI 3)]) = Err EType
+  /\ py_material_from_conf (Map [("longitudinal_vel", pyF 8); ("transverse_att", Map [("value", pyF 24)])]) = Err EType
+  /\ py_material_from_conf (pyI 5) = Err EAttr.
+Proof. vm_compute. repeat split; reflexivity. Qed.
+
+(* a block in immersion: two different walls (the second with its keys in another order and its
+   own y), two different materials *)
+Example conf_exam_example :
+  py_examination_object_from_conf
+    [("frontwall", Map [("xmin", pyF 0); ("xmax", pyF 8); ("z", pyF 16); ("numpoints", pyI 3)]);
+     ("backwall", Map [("numpoints", pyI 5); ("z", pyF 40); ("y", pyF 4); ("xmax", pyF 24); ("xmin", pyF (-8))]);
+     ("couplant_material", Map [("longitudinal_vel", pyF 8)]);
+     ("block_material", Map [("longitudinal_vel", pyF 16); ("transverse_vel", pyF 8)])]
+  = Ok (BlockInImmersion
+          [("longitudinal_vel", MCfg (pyF 16)); ("transverse_vel", MCfg (pyF 8));
+           ("longitudinal_att", MAtt None); ("transverse_att", MAtt None)]
+          [("longitudinal_vel", MCfg (pyF 8)); ("longitudinal_att", MAtt None); ("transverse_att", MAtt None)]
+          (mkWall [("xmin", pyF 0); ("xmax", pyF 8); ("z", pyF 16); ("numpoints", pyI 3)] "Frontwall")
+          (mkWall [("numpoints", pyI 5); ("z", pyF 40); ("y", pyF 4); ("xmax", pyF 24); ("xmin", pyF (-8))] "Backwall")).
+Proof. vm_compute. reflexivity. Qed.
+
+(* a block in contact with a null frontwall and under_material; the error cases: no
+   block_material, a null wall with all four keys present (immersion: TypeError), a wall that is
+   not a mapping, a wall that sets `name`, a wall without its required entries *)
+Example conf_exam_contact_and_errors :
+  py_examination_object_from_conf
+    [("block_material", Map [("longitudinal_vel", pyF 8)]); ("frontwall", pyN); ("under_material", pyN);
+     ("backwall", Map [("xmin", pyF 0); ("xmax", pyF 8); ("z", pyF 16); ("numpoints", pyI 3)])]
+  = Ok (BlockInContact [("longitudinal_vel", MCfg (pyF 8)); ("longitudinal_att", MAtt None); ("transverse_att", MAtt None)]
+          None (Some (mkWall [("xmin", pyF 0); ("xmax", pyF 8); ("z", pyF 16); ("numpoints", pyI 3)] "Backwall")) None)
+  /\ py_examination_object_from_conf [("frontwall", Map [("xmin", pyF 0); ("xmax", pyF 8); ("z", pyF 16); ("numpoints", pyI 3)])]
+     = Err ENotImplemented
+  /\ py_examination_object_from_conf
+       [("block_material", Map [("longitudinal_vel", pyF 8)]); ("frontwall", pyN);
+        ("backwall", Map [("xmin", pyF 0); ("xmax", pyF 8); ("z", pyF 16); ("numpoints", pyI 3)]);
+        ("couplant_material", Map [("longitudinal_vel", pyF 8)])] = Err EType
+  /\ py_examination_object_from_conf [("block_material", Map [("longitudinal_vel", pyF 8)]); ("frontwall", pyI 5)] = Err EType
+  /\ py_examination_object_from_conf
+       [("block_material", Map [("longitudinal_vel", pyF 8)]);
+        ("frontwall", Map [("xmin", pyF 0); ("xmax", pyF 8); ("z", pyF 16); ("numpoints", pyI 3); ("name", pyS "x")])] = Err EType
+  /\ py_examination_object_from_conf
+       [("block_material", Map [("longitudinal_vel", pyF 8)]); ("frontwall", Map [("xmin", pyF 0)])] = Err EType
+  /\ py_examination_object_from_conf [("block_material", pyI 5)] = Err EAttr.
+Proof. vm_compute. repeat split; reflexivity. Qed.
+
+(* probe_location {standoff: -2.0, angle_deg: 0.0, ref_element: 0}: the integer 0 and the angle
+   0.0 still trigger their calls; order set_reference_element, translate_to_point_O, rotate, translate *)
+Example conf_probe_example :
+  let pr := Map [("frequency", pyF 8000000); ("numx", pyI 3); ("pitch_x", pyF 8); ("numy", pyI 1); ("pitch_y", pyF 8)] in
+  let kw := [("frequency", pyF 8000000); ("numx", pyI 3); ("pitch_x", pyF 8); ("numy", pyI 1); ("pitch_y", pyF 8)] in
+  py_probe_from_conf [("probe", pr); ("probe_location", Map [("standoff", pyF (-16)); ("angle_deg", pyF 0); ("ref_element", pyI 0)])] true
+  = Ok (mkPlan (SrcMatrix kw) [OpSetRef (pyI 0); OpToO; OpRotY (pyF 0); OpTranslateZ (pyF (-16))])
+  /\ py_probe_from_conf [("probe", pr)] true = Err EKey
+  /\ py_probe_from_conf [("probe", pr)] false = Ok (mkPlan (SrcMatrix kw) [])
+  /\ py_probe_from_conf [("probe", pr); ("probe_location", pyS "abc")] true = Ok (mkPlan (SrcMatrix kw) [])
+  /\ py_probe_from_conf [("probe", pr); ("probe_location", pyS "xx standoff")] true = Err EType
+  /\ py_probe_from_conf [("probe", pr); ("probe_location", pyI 5)] true = Err EType
+  /\ py_probe_from_conf [("probe", pr); ("probe_key", pyS "ima_50_MHz_128_1d")] false = Err EAttr
+  /\ py_probe_from_conf [("probe_key", pyS "ima_50_MHz_128_1d"); ("probe_location", Map [("ref_element", pyS "mean")])] true
+     = Ok (mkPlan (SrcLibrary (pyS "ima_50_MHz_128_1d")) [OpSetRef (pyS "mean"); OpToO])
+  /\ py_probe_from_conf [("probe", Map [("numx", pyI 1)]); ("probe_location", Map [])] true = Err EType
+  /\ py_probe_from_conf [("probe_location", Map [])] true = Err EKey.
+Proof. vm_compute. repeat split; reflexivity. Qed.
+
+(* pixel_size [1.0, 3.0, 2.0] with ymax only: x gets 1.0, y gets 3.0 and (0.0, 6.0), z gets 2.0 *)
+Example conf_grid_example :
+  py_grid_axes_from_conf
+    [("grid", Map [("xmin", pyF 0); ("xmax", pyF 16); ("zmin", pyF 0); ("zmax", pyF 32); ("ymax", pyF 48);
+                   ("pixel_size", Leaf (PyList [PyFloat 8; PyFloat 24; PyFloat 16]))])]
+  = Ok ((pyF 0, pyF 16, PxLeaf (PyFloat 8)), (pyF 0, pyF 48, PxLeaf (PyFloat 24)), (pyF 0, pyF 32, PxLeaf (PyFloat 16)))
+  /\ py_grid_from_conf [("grid", Map [("xmin", pyF 0); ("xmax", pyF 16); ("zmin", pyF 0); ("zmax", pyF 32); ("pixel_size", pyF 8)])]
+     = Ok [("xmin", pyF 0); ("xmax", pyF 16); ("zmin", pyF 0); ("zmax", pyF 32); ("pixel_size", pyF 8);
+           ("ymin", pyF 0); ("ymax", pyF 0)]
+  /\ py_grid_axes_from_conf
+       [("grid", Map [("xmin", pyF 0); ("xmax", pyF 16); ("zmin", pyF 0); ("zmax", pyF 32);
+                      ("pixel_size", Leaf (PyList [PyFloat 8; PyFloat 24]))])] = Err EValue
+  /\ py_grid_from_conf [("grid", pyI 5)] = Err EType
+  /\ py_grid_from_conf [("grid", Map [("xmin", pyF 0)])] = Err EType
+  /\ py_grid_from_conf [("grid", Map [("foo", pyI 1); ("xmin", pyF 0); ("xmax", pyF 16); ("zmin", pyF 0); ("zmax", pyF 32); ("pixel_size", pyF 8)])] = Err EType
+  /\ py_grid_from_conf [] = Err EKey.
+Proof. vm_compute. repeat split; reflexivity. Qed.
+
+(* frame_from_conf: datafile wins over dataset_name, the delay is kept, both switches on / off;
+   the same configuration with its root keys in another order gives the same plan *)
+Example conf_frame_example :
+  let ld := fun s : frame_src py => match s with FromFile (Leaf (PyStr "a.mat")) => Ok tt | _ => Err ELoad end in
+  let pr := Map [("frequency", pyF 8000000); ("numx", pyI 3); ("pitch_x", pyF 8); ("numy", pyI 1); ("pitch_y", pyF 8)] in
+  let fr := Map [("datafile", pyS "a.mat"); ("instrument_delay", pyF 16); ("dataset_name", pyS "zz")] in
+  let bm := Map [("longitudinal_vel", pyF 8)] in
+  let plan := mkFramePlan (FromFile (pyS "a.mat")) (Some (pyF 16))
+                (Some (mkPlan (SrcMatrix [("frequency", pyF 8000000); ("numx", pyI 3); ("pitch_x", pyF 8); ("numy", pyI 1); ("pitch_y", pyF 8)]) []))
+                (Some (BlockInContact [("longitudinal_vel", MCfg (pyF 8)); ("longitudinal_att", MAtt None); ("transverse_att", MAtt None)] None None None)) in
+  py_frame_from_conf ld [("frame", fr); ("probe", pr); ("probe_location", Map []); ("block_material", bm)] true true = Ok plan
+  /\ py_frame_from_conf ld [("block_material", bm); ("probe_location", Map []); ("probe", pr); ("frame", fr)] true true = Ok plan
+  /\ py_frame_from_conf ld [("frame", Map [("datafile", pyS "a.mat"); ("instrument_delay", pyN)])] false false
+     = Ok (mkFramePlan (FromFile (pyS "a.mat")) None None None)
+  /\ py_frame_from_conf ld [("frame", Map [("datafile", pyS "a.mat")])] true false = Err EKey
+  /\ py_frame_from_conf ld [("frame", Map [("datafile", pyS "a.mat")])] false true = Err ENotImplemented
+  /\ py_frame_from_conf ld [("frame", Map [("datafile", pyS "nonexistent.mat")])] false false = Err ELoad
+  /\ py_frame_from_conf ld [("frame", Map [("dataset_name", pyS "zz"); ("dataset_item", pyS "a")])] false false = Err EValue
+  /\ py_frame_from_conf ld [("frame", Map [("dataset_item", pyS "a")])] false false = Err EKey
+  /\ py_frame_from_conf ld [("frame", pyS "a datafile b")] false false = Err EType
+  /\ py_frame_from_conf ld [] false false = Err EKey.
+Proof. vm_compute. repeat split; reflexivity. Qed.
+
+(* two elements at x = 0, 1 with corners x-1/4, x+1/2 (dimension 2*1/2 = 1), y in [-4, 2]
+   (dimension 2*4 = 8), z flat; a one-element array is rejected *)
+Example brain_probe_example :
+  option_map (fun p => (bp_locations p, map (fun t => let '(a, b, c) := t in (Qred a, Qred b, Qred c)) (bp_dimensions p), bp_frequency p))
+    (load_probe [0; 1] [0; 0] [0; 0] [-1 # 4; 3 # 4] [-4; -4] [0; 0] [1 # 2; 3 # 2] [2; 2] [0; 0] 5000000)%Q
+  = Some ([(0, 0, 0); (1, 0, 0)], [(1, 8, 0); (1, 8, 0)], 5000000)%Q
+  /\ (load_probe [0] [0] [0] [0] [0] [0] [0] [0] [0] 1)%Q = None.
+Proof. vm_compute. split; reflexivity. Qed.
+
+(* 4 timetraces of 3 samples (2-element FMC) through scipy; and the rejections: a repeated
+   (tx, rx) pair, a short tx, a decreasing time vector, a time vector of another length,
+   a single timetrace *)
+Example brain_frame_example :
+  let mem := [0; 1; 2; 3; 4; 5; 6; 7; 8; 9; 10; 11] in
+  let show := fun o : option (brain_frame Z) =>
+    option_map (fun fr => (map (fun i => map (fun j => aget Z 0 (bf_timetraces fr) i j) [0; 1; 2]%nat) [0; 1; 2; 3]%nat,
+                           (let '(a, b, n) := bf_time fr in (Qred a, Qred b, n)), bf_tx fr, bf_rx fr)) o in
+  show (load_frame Z (view_scipy Z 4 3 mem) [5; 11 # 2; 6]%Q [1; 1; 2; 2] [1; 2; 1; 2])
+  = Some ([[0; 1; 2]; [3; 4; 5]; [6; 7; 8]; [9; 10; 11]], (5, 1 # 2, 3%nat)%Q, [0; 0; 1; 1], [0; 1; 0; 1])
+  /\ show (load_frame Z (view_hdf5 Z 4 3 mem) [5; 11 # 2; 6]%Q [1; 1; 2; 2] [1; 2; 1; 2])
+     = Some ([[0; 1; 2]; [3; 4; 5]; [6; 7; 8]; [9; 10; 11]], (5, 1 # 2, 3%nat)%Q, [0; 0; 1; 1], [0; 1; 0; 1])
+  /\ load_frame Z (view_scipy Z 4 3 mem) [5; 11 # 2; 6]%Q [1; 1; 2; 1] [1; 2; 1; 2] = None
+  /\ load_frame Z (view_scipy Z 4 3 mem) [5; 11 # 2; 6]%Q [1; 1; 2] [1; 2; 1] = None
+  /\ load_frame Z (view_scipy Z 4 3 mem) [3; 2; 1]%Q [1; 1; 2; 2] [1; 2; 1; 2] = None
+  /\ load_frame Z (view_scipy Z 4 3 mem) [3; 2; 1; 0]%Q [1; 1; 2; 2] [1; 2; 1; 2] = None
+  /\ load_frame Z (view_scipy Z 1 3 [0; 1; 2]) [5; 11 # 2; 6]%Q [1] [1] = None.
+Proof. vm_compute. repeat split; reflexivity. Qed.
+
+(* decreasing vector rejected, constant vector accepted with step 0, delay 2 on (5, 1/2, 3) *)
+Example time_of_vect_example :
+  time_of_vect [3; 2; 1]%Q = None
+  /\ option_map (fun t => let '(a, b, n) := t in (Qred a, Qred b, n)) (time_of_vect [3; 3; 3]%Q) = Some (3, 0, 3%nat)%Q
+  /\ match time_of_vect [5; 11 # 2; 6]%Q with
+     | Some t => option_map (fun t => let '(a, b, n) := t in (Qred a, Qred b, n)) (shift_time t 2%Q)
+     | None => None end = Some (3, 1 # 2, 3%nat)%Q.
+Proof. vm_compute. repeat split; reflexivity. Qed.
